@@ -73,6 +73,14 @@ claim('C17', "Option inheritance proved (PaneOptions.replace, __init_subclass__:
 claim('C18', "Precedence proved on make_converter (special forms, call-level then class-local handlers, HasConverter, scalar table, registered global handlers, structural built-ins; "
       "a deferring handler is skipped), handler normalisation (_process: mapping form matches only the exact unparameterised type), PaneConverter.__init__ (own class handlers before "
       "enclosing ones, field converter first), handler threading through every composite constructor and every into_data.")
+claim('C08', "Totality proved: the six print_error bodies and ErrorNode.__str__ never raise under the tree-shape invariant (a duplicate-key node is never rendered "
+      "inside a sum: proved as a call-site precondition). Completeness of the text (path components in nesting order, leaf expectations, missing / extra / duplicate "
+      "names, offending value, cause message, determinism) is decided by a BOUNDED run-time contract on every error tree the witness pool produces.",
+      note="termination of the chain-fusing loop is not proved (finite trees assumed); cross-process set ordering is not covered; the bounded part is never counted as proved.")
+claim('C19', "Composition and ownership proved: readers = load then from_data(ty, custom), writers = into_data(obj, ty, custom) then dump with every formatting option passed "
+      "by name, from_yaml_all converts the whole document list as List[ty]; open_file opens paths itself and hands caller streams back in a null context (same object); "
+      "dataclass convenience methods delegate with ty = the class. The composed round trip over sinks x options x values is a BOUNDED run-time contract.",
+      note="json / PyYAML load(dump(x)) == x is the assumed dependency contract (exercised, not proved); bounded part never counted as proved.")
 claim('C20', "BOUNDED: canonical spelling, idempotence, reversibility and refusal clauses of rename_field evaluated at run time on every name of 1-3 words over a 4-word "
       "vocabulary x 5 styles, and on names with leading/trailing/doubled separators.",
       technique='run-time evaluation of sidecar contracts on the real function over an exhaustively enumerated finite domain (bounded stand-in; strings are outside the symbolic engine)')
